@@ -670,6 +670,10 @@ class ExpectationPropagation:
                     parent_cavity,
                     edge_likelihood,
                 )
+                if unphased:
+                    # the sideways projection returns the probability of the branch below
+                    # the fixed node, which is the second branch of the block here
+                    mutations_phase[m] = 1.0 - mutations_phase[m]
             else:
                 if p == c:  # singleton block with single parent
                     parent_message = factor[i, ROOTWARD] * scale[p]
